@@ -167,6 +167,11 @@ theorem branchesComplete_inst : branchesComplete tables = true := by decide +ker
 /-- every node type, and the static type of every deeply copied field, has a case in `Copy`'s type switch -/
 theorem copyTotal_inst : copyTotal tables = true := by decide +kernel
 
+/-- every function a deep copy passes through — the `Copy` dispatcher, each `copy()` method, `copySlice`,
+`graph.Kinds.Copy` — returns a fresh object (or nil) on every path and never its own argument -/
+theorem helpers_allocate_inst : tables.types.all (fun d => !d.copyCase || tables.declAllocs d) = true := by
+  decide +kernel
+
 /-- slice-of-scalar fields named here are treated as frozen (immutable) -/
 def maskFrozen (T : Tables) (names : List String) : Tables :=
   { T with types := T.types.map (fun d => { d with fields := d.fields.map (fun f =>
